@@ -15,6 +15,8 @@ import (
 var quickKinds = []string{"A", "Em", "Es", "Est", "Eo", "Eot", "W", "S", "WT"}
 var thoroughKinds = []string{"A", "AR", "Em", "Es", "Est", "Eo", "Eot", "W", "S", "WT", "R"}
 
+var voiceKinds = []string{"A", "D", "W", "Es", "Eo"}
+
 var triggers = []string{"manual", "msg", "flow_action"}
 
 // LooseLimit is a MaxStepsPerSprint no acyclic walk through <= 2+2 nodes reaches; TightLimit is
@@ -42,6 +44,14 @@ func Roots(tier string) []world.Root {
 			roots = append(roots, world.Root{Flows: &sets[i], Trigger: tr, Opt: world.Options{MaxSteps: LooseLimit}})
 		}
 	}
+	// the voice family: dial waits and dial resumes
+	voice := world.EnumFlowSets(voiceKinds, 2, 1)
+	for i := range voice {
+		for j := range voice[i].Flows {
+			voice[i].Flows[j].Type = "voice"
+		}
+		roots = append(roots, world.Root{Flows: &voice[i], Trigger: "voice", Opt: world.Options{MaxSteps: LooseLimit}})
+	}
 	return roots
 }
 
@@ -61,7 +71,11 @@ func run(c *mc.Ctx) {
 			break
 		}
 		root := &roots[i]
-		cfg := sm.Cfg{Depth: depth, Events: world.Events, Regimes: []bool{false, true}, ChoiceBound: bound}
+		events := world.Events
+		if root.Trigger == "voice" {
+			events = append(append([]string{}, world.Events...), "dial:answered", "dial:busy")
+		}
+		cfg := sm.Cfg{Depth: depth, Events: events, Regimes: []bool{false, true}, ChoiceBound: bound}
 		cfg.Visit = func(t *sm.Trans) bool { return visit(c, t) }
 		st := sm.Search(root, cfg)
 		if st.MaxSprintSteps > TightLimit {
@@ -127,6 +141,12 @@ func visit(c *mc.Ctx, t *sm.Trans) bool {
 			if e.Type() == "flow_entered" {
 				c.Fact("flow_entered")
 			}
+			if e.Type() == "dial_wait" {
+				c.Fact("dial_wait")
+			}
+			if e.Type() == "dial_ended" {
+				c.Fact("dial_ended")
+			}
 		}
 	}
 	c.Outcome(fmt.Sprintf("status:%s runs:%d", s.Status(), min(len(s.Runs()), 5)))
@@ -168,7 +188,7 @@ func init() {
 	mc.Register(&mc.Check{
 		ID:    "C01",
 		Level: "model_checking",
-		Rule: "explicit-state BFS on the real engine: roots = every canonical flow set (first flow <= 2 nodes, second flow enumerated only when entered) over the structural node alphabet x {manual,msg,flow_action} triggers x MaxStepsPerSprint in {3,100}; " +
+		Rule: "explicit-state BFS on the real engine: roots = every canonical flow set (first flow <= 2 nodes, second flow enumerated only when entered) over the structural node alphabet x {manual,msg,flow_action} triggers (plus a voice family with dial waits and dial resumes) x MaxStepsPerSprint in {8, and 3 when a sprint needs more than 3 steps}; " +
 			"transitions = resume menu {msg a, msg zz, wait_timeout, run_expiration} x environment answers (random draws, deviation-bounded), in both restart regimes (live object kept / marshal+ReadSession before every resume); states deduplicated on canonical session JSON; " +
 			"the five well-formedness clauses are evaluated after every transition. distinct_nontrivial counts roots with more than 2 distinct reachable states.",
 		Assumptions: []string{
@@ -178,10 +198,10 @@ func init() {
 		},
 		Run:    run,
 		Replay: replayFn,
-		Budget: map[string]time.Duration{"quick": 3 * time.Minute, "thorough": 25 * time.Minute},
+		Budget: map[string]time.Duration{"quick": 8 * time.Minute, "thorough": 30 * time.Minute},
 		Guards: func(r *mc.Result, tier string) []string {
 			var f []string
-			for _, fact := range []string{"three_runs", "child_expired", "run_failed", "flow_entered"} {
+			for _, fact := range []string{"three_runs", "child_expired", "run_failed", "flow_entered", "dial_wait", "dial_ended"} {
 				if r.Facts[fact] == 0 {
 					f = append(f, "never observed: "+fact)
 				}
